@@ -10,6 +10,7 @@ Steps (all in a fresh scratch worktree of /repo HEAD under /dev/shm, removed aft
 import sys, os, subprocess, json, shutil, time, argparse, tempfile
 ap = argparse.ArgumentParser(); ap.add_argument('prop'); ap.add_argument('which'); ap.add_argument('--src'); ap.add_argument('--needs', default='')
 ap.add_argument('--breaks', default='')
+ap.add_argument('--name', default='', help='output directory suffix (default: <which>), e.g. r2a for second-round seeds')
 a = ap.parse_args()
 src = a.src or '/tmp/seed/%s/_seed' % a.prop
 patch = os.path.join(src, a.which + '.diff'); demo = os.path.join(src, 'demo_%s.py' % a.which)
@@ -42,12 +43,12 @@ try:
   if not good:
     for x in ran: print("  ", x)
   if good:
-    out = '/verif/seeded/%s_%s' % (a.prop, a.which); os.makedirs(out, exist_ok=True)
+    out = '/verif/seeded/%s_%s' % (a.prop, a.name or a.which); os.makedirs(out, exist_ok=True)
     open(out + '/patch.diff', 'w').write(newdiff)
     shutil.copy(demo, out + '/demo.py')
     notes = os.path.join(src, 'notes.md')
     if os.path.exists(notes): shutil.copy(notes, out + '/agent_notes.md')
-    meta = {'property': a.prop, 'variant': a.which, 'files': files, 'breaks': a.breaks, 'needs_to_manifest': a.needs,
+    meta = {'property': a.prop, 'variant': a.name or a.which, 'files': files, 'breaks': a.breaks, 'needs_to_manifest': a.needs,
             'base_commit': sh('git -C /repo rev-parse --short HEAD').stdout.strip(),
             'confirmed': time.strftime('%Y-%m-%d %H:%M'),
             'what_i_ran': [{'step': s, 'cmd': c, 'rc': rc_, 'tail': t} for s, c, rc_, t in ran],
